@@ -111,6 +111,21 @@ Theorem C16_hypotheses_decidable : forall c gs root, hyps_ok c gs root = true ->
 Proof. exact hyps_ok_sound. Qed.
 Print Assumptions C16_hypotheses_decidable.
 
+(* the ID chosen for a new group (C16 fix: the index is increased until the ID is free; at most len(groups) increments) is
+   never the ID of an existing group ... *)
+Theorem C16_new_group_id_unused : forall gs n id, ~ In (fresh_name gs n id) (map gid gs).
+Proof. exact fresh_name_not_taken. Qed.
+Print Assumptions C16_new_group_id_unused.
+
+(* ... hence NO pre-existing group is touched, whatever its ID (also one that looks like a generated name): the group list
+   after the call is the old list followed by new groups, all section-tagged (any adjacency list, any fuel; optimise and
+   reorder flags off — reordering permutes: C16_reorder_permutes) *)
+Theorem C16_old_groups_untouched : forall c gs root st',
+  create_branches c gs root false false = Ok st' ->
+  exists new, st_groups st' = (gs ++ new)%list /\ Forall tagged new.
+Proof. exact create_branches_old_groups_untouched. Qed.
+Print Assumptions C16_old_groups_untouched.
+
 (* no hidden state: when the table regenerated from nml.py passes writes_ok (instance obligation
    Inst_C16_writes.v, every run), each lookup / query / sectioning method of Cell is present and writes no attribute of
    self other than the two documented caches *)
